@@ -2,8 +2,10 @@
 import os
 import re
 
+import batflow
 import corpus
 import progflow
+from batflow import neutral
 from vlib import Infra, read_ndjson, write_ndjson
 
 RULE = ("programs: the C01-C04 families restricted to 32-bit literals and a cmd-neutral string alphabet, plus seeded random programs (`vh gen all -small`). For each program: "
@@ -13,21 +15,6 @@ RULE = ("programs: the C01-C04 families restricted to 32-bit literals and a cmd-
         "third witness. Scripts using commands outside the modelled fragment are counted as unsupported and not compared. Distinct = distinct source text executed to completion by the model.")
 ASSUME = ["there is no cmd.exe in the sandbox: spec/CmdExe.tla (rules R1-R12 of DESIGN.md 6.3) is the statement of cmd.exe's documented rules",
           "harness/batparse.go splits the emitted text into commands and text segments faithfully (every line of the converter's inventory; anything else is flagged unsupported)"]
-
-STR = re.compile(r'"((?:[^"\\]|\\.)*)"|`([^`]*)`')
-NUM = re.compile(r'(?<![A-Za-z_0-9"])-?\d+')
-
-
-def neutral(src):
-    for m in STR.finditer(src):
-        body = m.group(1) if m.group(1) is not None else m.group(2)
-        if re.search(r'[!%"^&|<>()\\]', body or ""):
-            return False
-    bare = STR.sub('""', src)
-    for n in NUM.findall(bare):
-        if abs(int(n)) > 2147483647:
-            return False
-    return True
 
 
 def run(ctx):
@@ -59,33 +46,14 @@ def run(ctx):
             continue
         keep.append((c, v))
     # (2): real Batch converter, parsed, executed by CmdExe
-    wd = ctx.sub("bat")
-    p0, p1 = os.path.join(wd, "c0.ndjson"), os.path.join(wd, "c1.ndjson")
-    write_ndjson(p0, [{"id": c["id"], "prog": c["prog"]} for c, v in keep])
-    ctx.run_vh("batch", p0, p1, os.path.join(wd, "scr"))
-    bat = {c["id"]: c for c in read_ndjson(p1)}
-    cmdcases = []
-    for c, v in keep:
-        b = bat[c["id"]]
-        if not b.get("batAccepted"):
-            s = "the Bash converter accepts the program, the Batch converter rejects it: " + b.get("batErr", "")
-            ctx.report_failure(c["id"], {"property": "C05", "case": c["id"], "why": s, "source": c["src"]}, s)
-            continue
-        cmdcases.append({"id": c["id"], "script": b["script"], "ref": {"out": v["out"], "code": v["code"]}})
-    p2 = os.path.join(wd, "cases.ndjson")
-    write_ndjson(p2, cmdcases)
-    verd, _ = ctx.tlc("CmdExe", workdir=ctx.sub("tlc-cmd"), files=[(p2, "cases.ndjson")], timeout=6000)
-    by = {x["id"]: x for x in verd}
+    bat, by = batflow.run_cmd(ctx, keep)
     agree_bash = 0
     for c, v in keep:
         r = by.get(c["id"])
         if r is None:
             continue
         b = bat[c["id"]]
-        if r["st"] in ("unsupported", "diverge"):
-            ctx.dropped["cmd-" + r["st"]] = ctx.dropped.get("cmd-" + r["st"], 0) + 1
-            if r["st"] == "unsupported" and len(ctx.notes.setdefault("unsupported_lines", [])) < 10:
-                ctx.notes["unsupported_lines"] += b.get("unsupported", [])[:2]
+        if not batflow.judge(ctx, c, v, b, r):
             continue
         ctx.traces_validated += 1
         ctx.distinct.add(c["src"])
@@ -95,12 +63,4 @@ def run(ctx):
             ctx.samples.append({"id": c["id"], "source": c["src"], "reference_stdout": v["out"], "cmd_model_stdout": r["out"], "bash_stdout": c["obs"]["out"]})
         if c["id"] in expects and r["st"] == "exit" and r["out"].strip() == expects[c["id"]].strip() and r["ok"]:
             ctx.notes["cmd_model_calibrated_on_repo_tests"] = ctx.notes.get("cmd_model_calibrated_on_repo_tests", 0) + 1
-        if not r["ok"]:
-            from vlib import first_diff
-            s = "under cmd.exe's rules the Batch script ends with status %s (%s): stdout %s; status expected %d observed %s" % (
-                r["st"], "script error" if r["st"] == "cmderror" else "normal end", first_diff(v["out"], r["out"]) or "equal", v["code"], r["code"])
-            ctx.report_failure(c["id"], {"property": "C05", "case": c["id"], "why": s, "source": c["src"], "batch_script": b.get("bat"),
-                                         "expected": {"stdout": v["out"], "status": v["code"]}, "cmd_model": {"stdout": r["out"], "status": r["code"], "end": r["st"]},
-                                         "bash": {"stdout": c["obs"]["out"], "status": c["obs"]["code"]},
-                                         "reproduce": "tsh -t batch; run the .bat under cmd.exe (or spec/CmdExe.tla)"}, s)
     return ctx.finish(rule=RULE, assumptions=ASSUME, extra={"agree_with_bash": agree_bash, "notes": ctx.notes})
